@@ -200,6 +200,8 @@ BuiltEv ==
         /\ Check("C03", "failed-load-is-error-entry", \A s \in failed \cup redirectedInPkg : isErr(s), "-", FALSE,
                  { s \in failed \cup redirectedInPkg : ~isErr(s) }, "-")
         /\ Check("C03", "entries-only-for-requested-specifiers", DOMAIN g.slots \subseteq requested, "-", FALSE, (DOMAIN g.slots) \ requested, "-")
+        /\ Check("C03", "entry-stored-under-its-own-specifier", \A s \in DOMAIN g.slots : "keyMismatch" \notin DOMAIN g.slots[s], "-", FALSE,
+                 { s \in DOMAIN g.slots : "keyMismatch" \in DOMAIN g.slots[s] }, "-")
         /\ Check("C03", "nothing-pending", \A s \in DOMAIN g.slots : g.slots[s].k # "pending", "-", FALSE, "-", "-")
         /\ Check("C03", "error-has-referrer", \A s \in DOMAIN g.slots : (g.slots[s].k = "err" /\ s \notin SeqToSet(g.roots)
                     /\ g.slots[s].ek \notin {"parse", "wasmparse", "decode"}) => g.slots[s].ref # "-", "-", FALSE,
